@@ -466,8 +466,10 @@ class ExpressionParser:
                         break
 
             if prioritize:
-                idx = args_sorted.index(arg_tmp)
+                # treat the containing argument first, then come back to this one (it used to be dropped)
+                idx = [i for i, a in enumerate(args_sorted) if a is arg_tmp][0]
                 args_final.append(args_sorted.pop(idx))
+                args_sorted.insert(0, arg)
             else:
                 args_final.append(arg)
 
@@ -834,8 +836,7 @@ def get_unique_label(label: str, labels: dict) -> tp.Tuple[str, dict]:
 
 
 def replace_in_expr(expr: Expr, replacements: dict):
-    expr = expr.subs(replacements, simultaneous=True)
-    for arg_old in replacements:
-        if expr.count(arg_old):
-            expr = expr.replace(arg_old, replacements[arg_old])
-    return expr
+    # the keys are direct arguments of `expr`: exact structural replacement in one simultaneous pass.
+    # subs()/replace() match algebraically (c*x**2 inside c*x**3 leaves a free x behind) and a second
+    # pass rewrites a freshly introduced symbol again when it is named like another key.
+    return expr.xreplace(replacements)
